@@ -119,9 +119,9 @@ func NewRun(prop, level string) *Run {
 	}
 }
 
-func (r *Run) SetRule(s string)         { r.rule = s }
-func (r *Run) Assume(s ...string)       { r.assume = append(r.assume, s...) }
-func (r *Run) SetExhaustive(b bool)     { r.exhaustive = b }
+func (r *Run) SetRule(s string)     { r.rule = s }
+func (r *Run) Assume(s ...string)   { r.assume = append(r.assume, s...) }
+func (r *Run) SetExhaustive(b bool) { r.exhaustive = b }
 func (r *Run) Extra(k string, v interface{}) {
 	r.mtx.Lock()
 	r.extra[k] = v
@@ -223,7 +223,7 @@ func (r *Run) Violation(key, what string, witness interface{}) bool {
 	if r.violKeys[key] > 3 { // do not flood: first three witnesses per class
 		return true
 	}
-	dir := filepath.Join(Root, "replays", r.Prop)
+	dir := filepath.Join(replayDir(), r.Prop)
 	os.MkdirAll(dir, 0755)
 	name := fmt.Sprintf("%s-seed%d-%s-%d.json", sanitize(key), Seed(), Tier(), r.violKeys[key])
 	path := filepath.Join(dir, name)
@@ -237,6 +237,20 @@ func (r *Run) Violation(key, what string, witness interface{}) bool {
 	fmt.Printf("VIOLATION property=%s replay=%s\n", r.Prop, path)
 	fmt.Printf("  class=%s: %s\n", key, what)
 	return true
+}
+
+func evidenceDir() string {
+	if d := os.Getenv("VERIF_EVIDENCE_DIR"); d != "" {
+		return d
+	}
+	return filepath.Join(Root, "evidence")
+}
+
+func replayDir() string {
+	if d := os.Getenv("VERIF_REPLAY_DIR"); d != "" {
+		return d
+	}
+	return filepath.Join(Root, "replays")
 }
 
 func sanitize(s string) string {
@@ -313,8 +327,8 @@ func (r *Run) Finish() int {
 		ev["assumptions"] = []string{}
 	}
 	b, _ := json.MarshalIndent(ev, "", " ")
-	os.MkdirAll(filepath.Join(Root, "evidence"), 0755)
-	path := filepath.Join(Root, "evidence", r.Prop+".json")
+	os.MkdirAll(evidenceDir(), 0755)
+	path := filepath.Join(evidenceDir(), r.Prop+".json")
 	if err := ioutil.WriteFile(path, b, 0644); err != nil {
 		fmt.Fprintf(os.Stderr, "cannot write evidence: %v\n", err)
 	}
